@@ -189,9 +189,13 @@ func (it *Interp) storeRangeIterator(v *StoreView, start, end *StrV, reverse boo
 					}
 				}
 				if d < 0 {
-					it.fail("iteration order over %d keys of which %d are opaque is not encodable (keys %s and %s are not separated by their literal leading bytes)", len(ks), opaqueKeys, it.describe(ks[j]), it.describe(ks[j-1]))
+					// not separated by their literal leading bytes: the lexicographic order of the two keys is the
+					// uninterpreted strict total order on opaque strings (every order consistent with it is explored)
+					_ = opaqueKeys
+					less = it.p.branch(it.strLessOpaque(ks[j], ks[j-1]))
+				} else {
+					less = a[d] < b[d]
 				}
-				less = a[d] < b[d]
 			}
 			if !less {
 				break
